@@ -2,9 +2,9 @@ package c04
 
 import (
 	"context"
+	"crypto/md5"
 	"encoding/binary"
 	"encoding/json"
-	"crypto/md5"
 	"fmt"
 	"net/http"
 	"strings"
@@ -69,8 +69,8 @@ func kinesisReaderBody(c *mc.Ctx) {
 		return r
 	}
 	reader := newReader(nil)
-	put := [2]int{}    // records put per shard
-	pos := [2]int{}    // records of the shard emitted in the current lineage
+	put := [2]int{} // records put per shard
+	pos := [2]int{} // records of the shard emitted in the current lineage
 	restores, afterRestoreReads := 0, 0
 	for step := 0; step < depth; step++ {
 		op := c.Choose(5)
